@@ -59,6 +59,7 @@ type viol struct {
 	Rej   bool   `json:"reject,omitempty"` // the input carries the must-be-rejected requirement
 	ExpF  bool   `json:"expectf,omitempty"` // f() must return ExpV
 	ExpV  uint32 `json:"expectv,omitempty"`
+	ExecAll bool `json:"execall,omitempty"` // executed under every accepting feature set
 }
 
 type sample struct {
@@ -270,6 +271,14 @@ type evalState struct {
 	execF    int
 	acc      []int
 	cmI, cmC wazero.CompiledModule
+	more     []execUnit // ExecAllFS: the compiled modules of the further accepting feature sets
+}
+
+// execUnit: one input compiled by both engines under one feature set (each feature set has its own
+// runtimes, so the compiled modules of different sets do not share code).
+type execUnit struct {
+	f        int
+	cmI, cmC wazero.CompiledModule
 }
 
 func fsContains(f int, req uint64) bool { return uint64(featureSets[f].F)&req == req }
@@ -282,7 +291,7 @@ func (c *childState) addViol(res *chunkRes, sig, what string, in input, f int) {
 	if f >= 0 {
 		fsn = featureSets[f].Name
 	}
-	res.Viol = append(res.Viol, viol{Sig: sig, What: what, Tag: in.Tag, Hex: hex.EncodeToString(in.B), FS: fsn, Valid: in.Valid, Req: uint64(in.Req), Args: in.ArgSets, Ref: hex.EncodeToString(in.Ref), Rej: in.Reject, ExpF: in.ExpectF, ExpV: in.ExpectV})
+	res.Viol = append(res.Viol, viol{Sig: sig, What: what, Tag: in.Tag, Hex: hex.EncodeToString(in.B), FS: fsn, Valid: in.Valid, Req: uint64(in.Req), Args: in.ArgSets, Ref: hex.EncodeToString(in.Ref), Rej: in.Reject, ExpF: in.ExpectF, ExpV: in.ExpectV, ExecAll: in.ExecAllFS})
 }
 
 func outcomeSample(res *chunkRes, in input, outcome string) {
@@ -341,6 +350,9 @@ func (c *childState) compileAll(ci, k int, in input, skipC map[[2]int]bool, res 
 					if first {
 						es.execF, es.cmI, es.cmC = f, r.cm, rc.cm
 						r.cm = nil
+					} else if in.ExecAllFS {
+						es.more = append(es.more, execUnit{f, r.cm, rc.cm})
+						r.cm = nil
 					} else {
 						rc.cm.Close(c.h.ctx)
 					}
@@ -396,6 +408,12 @@ func validClass(tag string) string {
 			return tag[:i]
 		}
 	}
+	if strings.HasPrefix(tag, "family:segkinds:") {
+		// family:segkinds:<elem|data>:flagN:... -> segment kind and flag
+		if p := strings.SplitN(tag, ":", 5); len(p) == 5 {
+			return strings.Join(p[:4], ":")
+		}
+	}
 	if strings.HasPrefix(tag, "family:dead:") {
 		return "family:dead-code"
 	}
@@ -408,6 +426,10 @@ func (es *evalState) close(c *childState) {
 	}
 	if es.cmC != nil {
 		es.cmC.Close(c.h.ctx)
+	}
+	for _, u := range es.more {
+		u.cmI.Close(c.h.ctx)
+		u.cmC.Close(c.h.ctx)
 	}
 }
 
@@ -503,7 +525,74 @@ func (c *childState) executeOne(ci int, es *evalState, skipX map[int]bool, res *
 	if skipX[es.k] {
 		return
 	}
-	f := es.execF
+	c.executeUnit(ci, es, execUnit{es.execF, es.cmI, es.cmC}, res)
+	for _, u := range es.more {
+		c.executeUnit(ci, es, u, res)
+	}
+	if es.in.ExecAllFS || !hasRefTypes(es.execF) || !hasSegments(es.in.B) {
+		return
+	}
+	// Instantiation consults the feature set once more: without reference-types the bounds of element and
+	// data segments are checked BEFORE anything is written (buildTables / validateData in store.go). A module
+	// with segments is therefore also executed under the first accepting feature set that lacks
+	// reference-types, if there is one.
+	for _, f := range es.acc {
+		if hasRefTypes(f) {
+			continue
+		}
+		var u execUnit
+		u.f = f
+		c.prog.set(ci, es.k, f, phaseCompileInterp, engInterp)
+		if r := c.h.compile(engInterp, f, es.in.B); r.res == "accept" {
+			u.cmI = r.cm
+		}
+		c.prog.set(ci, es.k, f, phaseCompileCompiler, engCompiler)
+		if r := c.h.compile(engCompiler, f, es.in.B); r.res == "accept" {
+			u.cmC = r.cm
+		}
+		if u.cmI != nil && u.cmC != nil {
+			res.Outcomes["executed-again-without-reference-types"]++
+			c.executeUnit(ci, es, u, res)
+		}
+		if u.cmI != nil {
+			u.cmI.Close(c.h.ctx)
+		}
+		if u.cmC != nil {
+			u.cmC.Close(c.h.ctx)
+		}
+		break
+	}
+}
+
+func hasRefTypes(f int) bool { return featureSets[f].F&fRef != 0 }
+
+// hasSegments: the binary has an element or a data section (own section scan; false when it cannot be read).
+func hasSegments(b []byte) bool {
+	for p := 8; p < len(b); {
+		id := b[p]
+		n, l := 0, 0
+		for sh := uint(0); ; sh += 7 {
+			if p+1+l >= len(b) || l >= 5 {
+				return false
+			}
+			c := b[p+1+l]
+			n |= int(c&0x7f) << sh
+			l++
+			if c&0x80 == 0 {
+				break
+			}
+		}
+		if id == 9 || id == 11 {
+			return true
+		}
+		p += 1 + l + n
+	}
+	return false
+}
+
+// executeUnit: signature comparison, execution on both engines and comparison under one feature set.
+func (c *childState) executeUnit(ci int, es *evalState, u execUnit, res *chunkRes) {
+	f := u.f
 	in := es.in
 	c.prog.set(ci, es.k, f, phaseExec, engInterp)
 	dec, err := decodeForHarness(in.B, f)
@@ -511,7 +600,7 @@ func (c *childState) executeOne(ci int, es *evalState, skipX map[int]bool, res *
 		res.Outcomes["exec:harness-decode-failed"]++
 		return
 	}
-	cms := [2]wazero.CompiledModule{es.cmI, es.cmC}
+	cms := [2]wazero.CompiledModule{u.cmI, u.cmC}
 	if in.Valid {
 		// the signatures a compiled valid module publishes must be the declared ones (read by the own walker)
 		if want, ok := exportSigs(in.B); ok {
@@ -917,7 +1006,7 @@ func main() {
 		if unreproduced[v.Sig] {
 			continue
 		}
-		run.Violation(v.Sig, v.What+" [input "+v.Tag+"]", map[string]any{"hex": v.Hex, "fs": v.FS, "tag": v.Tag, "valid": v.Valid, "req": v.Req, "argsets": v.Args, "ref": v.Ref, "reject": v.Rej, "expectf": v.ExpF, "expectv": v.ExpV})
+		run.Violation(v.Sig, v.What+" [input "+v.Tag+"]", map[string]any{"hex": v.Hex, "fs": v.FS, "tag": v.Tag, "valid": v.Valid, "req": v.Req, "argsets": v.Args, "ref": v.Ref, "reject": v.Rej, "expectf": v.ExpF, "expectv": v.ExpV, "execall": v.ExecAll})
 	}
 
 	os.RemoveAll(dir) // run.Finish exits the process: deferred clean-up would not run
@@ -959,7 +1048,7 @@ func main() {
 			"timing_dependent_not_compared": withExtra(tot.Timing, map[string]int64{"alloc_bisections": tot.Bisects, "transcript_items": tot.Calls, "max_batch_alloc_bytes": int64(tot.MaxBatchAlloc)}),
 		},
 	}, []string{
-		"decode and validation do not depend on the engine, and the engines do not depend on the feature set beyond what validation accepted: an accepted input is compiled by the optimizing compiler and executed under the first feature set (in the listed order) that accepts it; corpus seeds are compiled by both engines under every accepting set",
+		"decode and validation do not depend on the engine; beyond validation only instantiation consults the feature set (reference-types: when segment bounds are checked): an accepted input is compiled by the optimizing compiler and executed under the first feature set (in the listed order) that accepts it, and, when it has an element or data section, once more under the first accepting set without reference-types; corpus seeds and the segment-kinds family are compiled by both engines and executed under every accepting set",
 		"children run under ulimit -v 3 GiB (not 8): a request of >= 2 GiB then kills the child at once, which is recorded as the failure, instead of zero-filling gigabytes per evaluation on a shared machine",
 		"a guest call that ends only by the context deadline, or exhausts the call stack, ends the comparison of that instance; such counts are wall-clock dependent and reported separately",
 		"pairs of field deviations are built only from single deviations that did not kill the process (those are already recorded failures)",
@@ -997,7 +1086,7 @@ func loadKnown() func(sig string) bool {
 // shows up again (as a reported violation or as a process death).
 func reproduces(dir string, v viol) bool {
 	hf := dir + "/confirm.json"
-	js, _ := json.Marshal([]map[string]any{{"hex": v.Hex, "tag": v.Tag, "valid": v.Valid, "req": v.Req, "argsets": v.Args, "ref": v.Ref, "reject": v.Rej, "expectf": v.ExpF, "expectv": v.ExpV}})
+	js, _ := json.Marshal([]map[string]any{{"hex": v.Hex, "tag": v.Tag, "valid": v.Valid, "req": v.Req, "argsets": v.Args, "ref": v.Ref, "reject": v.Rej, "expectf": v.ExpF, "expectv": v.ExpV, "execall": v.ExecAll}})
 	os.WriteFile(hf, js, 0o600)
 	sub := dir + "/confirm"
 	os.MkdirAll(sub, 0o700)
@@ -1106,6 +1195,7 @@ func replayMain(file string) {
 			Valid        bool
 			Req          uint64
 			ArgSets      int
+			ExecAll      bool
 		}
 	}
 	if err := json.Unmarshal(b, &art); err != nil {
@@ -1114,7 +1204,7 @@ func replayMain(file string) {
 	dir, _ := os.MkdirTemp("", "c03-replay-")
 	defer os.RemoveAll(dir)
 	hf := dir + "/in.json"
-	js, _ := json.Marshal([]map[string]any{{"hex": art.Replay.Hex, "tag": art.Replay.Tag, "valid": art.Replay.Valid, "req": art.Replay.Req, "argsets": art.Replay.ArgSets, "ref": art.Replay.Ref, "reject": art.Replay.Reject, "expectf": art.Replay.ExpectF, "expectv": art.Replay.ExpectV}})
+	js, _ := json.Marshal([]map[string]any{{"hex": art.Replay.Hex, "tag": art.Replay.Tag, "valid": art.Replay.Valid, "req": art.Replay.Req, "argsets": art.Replay.ArgSets, "ref": art.Replay.Ref, "reject": art.Replay.Reject, "expectf": art.Replay.ExpectF, "expectv": art.Replay.ExpectV, "execall": art.Replay.ExecAll}})
 	os.WriteFile(hf, js, 0o600)
 	fmt.Printf("replaying %s\n  input (%d bytes): %s\n  recorded: %s\n", art.Signature, len(art.Replay.Hex)/2, art.Replay.Hex, art.What)
 	failed := false
